@@ -41,6 +41,7 @@ EXTENDS Integers, Sequences, FiniteSets, TLC, Json, SequencesExt
 CONSTANTS FlawShallowListFreeze, FlawSharedConstants, FlawInPlaceSort, FlawAppendSharesCapacity,
           FlawSortedAliasesOrdered,
           OnlyTargets,   \* {} = the whole menu; otherwise P1 only touches these targets
+          DeepTargets,   \* {} = no restriction; otherwise attempts after the first only touch these targets
           MaxMut,        \* P1 performs at most MaxMut mutation attempts
           DeepVias,      \* access paths enumerated for every step
           LastVias,      \* access paths enumerated additionally when it is P1's first attempt
@@ -295,7 +296,7 @@ P2Read == /\ Concurrent /\ pc2 < Len(Probes)
           /\ UNCHANGED <<sub, env1, st1, hist>>
 
 MenuFirst == Menu(DeepVias \cup LastVias)     \* zero-arity, so that TLC evaluates each menu once
-MenuDeep  == Menu(DeepVias)
+MenuDeep  == {m \in Menu(DeepVias) : DeepTargets = {} \/ m.tgt \in DeepTargets}
 Next == \/ \E m \in (IF hist = <<>> THEN MenuFirst ELSE MenuDeep) : P1Step(m)
         \/ P2Read
 Spec == Init /\ [][Next]_vars
